@@ -26,7 +26,7 @@ theorem collocRows_eq_theta (F : Residual) (s : Sys) (c : Mem) (X : Vec)
     collocRowsCode F s c X i
       = thetaSpec F s.theta s.t0 c.par (decode s X c.idx) (inputsAt s c) s.ts i := by
   obtain ⟨h1, h2, h3, h4, h5, h6⟩ := uRow_pieces s c X i hi
-  unfold collocRowsCode mappedOut
+  unfold collocRowsCode mappedOut blockOfRow
   simp only [h1, h2, h3, h4, h5, h6]
   rw [collocBlock_eq_blend F s.ne hF, ← thetaSpec_eq_blend]
   have hl := thetaSpec_length F s.ne hF s.theta s.t0 c.par (decode s X c.idx) (inputsAt s c) s.ts i
